@@ -1308,7 +1308,7 @@ def run(chk):
     chk.assume += ['floating-point rounding is not modelled (exact rationals); generated numbers are ints/dyadics or compared at 1e-12..1e-10 absolute',
                    'dict keys are hashable atoms None|int|float|str; bool, nan and inf are outside the model']
     chk.proof()
-    per = 220 if chk.tier == 'quick' else 2200
+    per = 220 if chk.tier == 'quick' else 4500
     explore(chk, per)
     if (chk.broken or chk.mismatches) and not chk.fails:
         explore(chk, per * (6 if chk.tier == 'quick' else 2), do_model=False)
